@@ -1267,6 +1267,7 @@ static size_t ZSTD_initLocalDict(ZSTD_CCtx* cctx)
     assert(dl->dictSize > 0);
     assert(cctx->cdict == NULL);
     assert(cctx->prefixDict.dict == NULL);
+    RETURN_ERROR_IF(cctx->staticSize, memory_allocation, "static CCtx can't create an internal CDict");
 
     dl->cdict = ZSTD_createCDict_advanced2(
             dl->dict,
